@@ -30,7 +30,7 @@ for d in sorted(glob.glob('/tmp/seeded_out/C*/[a-z]')):
             'demo_fails_with_patch': j.get('demo_fails_with_patch'),
             'how': 'tools/eval_seeded.py: scratch worktree of /repo for the demo and the suite; patch applied to /repo, checks run, git checkout -- .',
         },
-        'detected_by': {k: {'tier': v['tier'], 'wall_s': v['wall_s'], 'first_signature': (v['lines'] or [''])[0].strip()[:300]} for k, v in caught.items()},
+        'detected_by': {k: {'tier': v['tier'], 'first_signature': (v['lines'] or [''])[0].strip()[:300]} for k, v in caught.items()},
         'caught_by_own_check_quick': j.get('caught_by_own_check_quick'),
         'caught_by_own_check_thorough': j.get('caught_by_own_check_thorough'),
     }
